@@ -19,6 +19,7 @@ import (
 	"runtime"
 	"sort"
 	"strings"
+	"sync"
 	"sync/atomic"
 	"time"
 
@@ -806,6 +807,131 @@ func raceOne(rc *raceCase, timeout time.Duration, jitter time.Duration, swap boo
 		What: "concurrent steps left the nodes in a state that is neither serialization: " + strings.Join(why, " | ")}, nil
 }
 
+// stress: a free-running cluster (no scheduler: the wire delivers at once, WAL syncs are not gated) with
+// concurrent writers, elections issued while writes and replication are in flight, and stream resets.
+// The controllers write their event trace (VERIF_TRACE), which TLC validates against OxiaNodeTrace.
+func stressMain(args []string) {
+	fs := flag.NewFlagSet("stress", flag.ExitOnError)
+	seed := fs.Int64("seed", 1, "")
+	rounds := fs.Int("rounds", 5, "")
+	dur := fs.Duration("dur", 1500*time.Millisecond, "")
+	_ = fs.Parse(args)
+	slog.SetDefault(slog.New(slog.NewTextHandler(io.Discard, nil)))
+	rng := rand.New(rand.NewSource(*seed))
+	names := []string{"a", "b", "c"}
+	for round := 0; round < *rounds; round++ {
+		sim, err := cluster.New(names)
+		if err != nil {
+			fmt.Fprintln(os.Stderr, err)
+			os.Exit(2)
+		}
+		sim.SetAuto(true)
+		var mu sync.Mutex
+		leader := ""
+		term := int64(-1)
+		elect := func() {
+			mu.Lock()
+			term++
+			t := term
+			mu.Unlock()
+			type hr struct {
+				n string
+				h *proto.EntryId
+			}
+			ch := make(chan hr, len(names))
+			for _, n := range names {
+				go func(n string) {
+					h, err := sim.NewTerm(n, t)
+					if err != nil {
+						h = nil
+					}
+					ch <- hr{n, h}
+				}(n)
+			}
+			heads := map[string]*proto.EntryId{}
+			for range names {
+				r := <-ch
+				if r.h != nil {
+					heads[r.n] = r.h
+				}
+			}
+			if len(heads) < 2 {
+				return
+			}
+			best := ""
+			for n, h := range heads {
+				if best == "" || h.Term > heads[best].Term || (h.Term == heads[best].Term && h.Offset > heads[best].Offset) {
+					best = n
+				}
+			}
+			fm := map[string]*proto.EntryId{}
+			for n, h := range heads {
+				if n != best {
+					fm[n] = h
+				}
+			}
+			sim.BecomeLeaderStart(best, t, 3, fm)
+			deadline := time.Now().Add(2 * time.Second)
+			for time.Now().Before(deadline) {
+				if fin, err := sim.BecomeLeaderResult(best); fin {
+					if err == nil {
+						mu.Lock()
+						leader = best
+						mu.Unlock()
+					}
+					return
+				}
+				time.Sleep(time.Millisecond)
+			}
+			sim.BecomeLeaderCancel(best)
+		}
+		elect()
+		stop := make(chan struct{})
+		var wg sync.WaitGroup
+		for w := 0; w < 4; w++ {
+			wg.Add(1)
+			go func(w int) {
+				defer wg.Done()
+				k := 0
+				for {
+					select {
+					case <-stop:
+						return
+					default:
+					}
+					mu.Lock()
+					l := leader
+					mu.Unlock()
+					if l != "" {
+						_, _ = sim.ClientWrite(l, fmt.Sprintf("s%d-%d", w, k))
+						k++
+					}
+					time.Sleep(time.Duration(200+rng.Intn(800)) * time.Microsecond)
+				}
+			}(w)
+		}
+		end := time.Now().Add(*dur)
+		for time.Now().Before(end) {
+			time.Sleep(time.Duration(150+rng.Intn(250)) * time.Millisecond)
+			if rng.Intn(3) == 0 {
+				mu.Lock()
+				l := leader
+				mu.Unlock()
+				f := names[rng.Intn(len(names))]
+				if l != "" && f != l {
+					_ = sim.ResetStream(l, f)
+				}
+			} else {
+				elect()
+			}
+		}
+		close(stop)
+		wg.Wait()
+		time.Sleep(20 * time.Millisecond)
+		sim.Close()
+	}
+}
+
 func raceMain(args []string) {
 	fs := flag.NewFlagSet("race", flag.ExitOnError)
 	in := fs.String("in", "", "")
@@ -970,6 +1096,10 @@ func main() {
 		workerMain(os.Args[2:])
 		return
 	}
+	if len(os.Args) >= 2 && os.Args[1] == "stress" {
+		stressMain(os.Args[2:])
+		return
+	}
 	if len(os.Args) >= 2 && os.Args[1] == "race" {
 		raceMain(os.Args[2:])
 		return
@@ -1044,6 +1174,8 @@ func main() {
 					"-stride", fmt.Sprint(*workers), "-offset", fmt.Sprint(w))
 				var errb strings.Builder
 				cmd.Stderr = &errb
+				// the controllers' own event trace (hooks under the verif tag), one file per worker process
+				cmd.Env = append(os.Environ(), fmt.Sprintf("VERIF_TRACE=%s.nodetrace.%d.%d", *out, w, skip))
 				outp, _ := cmd.StdoutPipe()
 				if err := cmd.Start(); err != nil {
 					r.err = err
